@@ -24,7 +24,7 @@
    of the logged values, conn.Write failing. *)
 From JT.Base Require Import Prelude.
 From JT.Model Require Import Frame Unpack Subpkg.
-From JT.Model Require Ranges Reply Attach Location.
+From JT.Model Require Ranges Reply Attach Location Total_base Total_msgs.
 
 Inductive fate := Running | Crash.        (* of the server process *)
 
@@ -204,8 +204,9 @@ Definition reply_body_chk (k : Reply.rkind) (s : Reply.hstate) (m : msg)
   end.
 
 (* ---------- handlers that parse every body (README pattern) ---------- *)
-(* OnReadExecutionEvent calling Parse of the registered type.  The types whose Parse is modelled with
-   checked primitives are parsed here; the others are the obligation of C03 (total decoders). *)
+(* OnReadExecutionEvent calling Parse of the registered type on a fresh receiver.  Location reports and the
+   types of the reply path use the models of C08 / C06 / C15 / C16; every other registered type is parsed by
+   C03's checked model of protocol/model (Total_msgs.parse_msg: Err 98 for an id it does not know). *)
 Definition handler_parse_chk (m : msg) : result unit :=
   let body := m_body m in
   let id := m_id m in
@@ -221,7 +222,11 @@ Definition handler_parse_chk (m : msg) : result unit :=
     match Ranges.parse1211 body with Panic => Panic | _ => Ok tt end
   else if id =? 0x1210 then
     match Attach.parse1210 1 body with Panic => Panic | _ => Ok tt end
-  else Ok tt.
+  else
+    match Total_msgs.parse_msg id (fun x => x) (if m_ver m =? 1 then 3 else 2) 1 (Total_base.VL []) body with
+    | Panic => Panic
+    | _ => Ok tt
+    end.
 
 (* ---------- one connection ---------- *)
 Record conn := {
